@@ -70,6 +70,11 @@ func (w *ledgerWorld) pc(what string, to common.Address, assets bool, method str
 		return fmt.Errorf("panic: harness could not pack %s: %v", method, err)
 	}
 	m := a.Methods[method]
+	// a transaction starts with a gas meter of its own. The deliver-state context of the harness keeps ONE
+	// meter for all the operations of a block, and the precompiles' RunSetup charges what the ambient meter
+	// has consumed so far to the call's own budget (`ctx.GasMeter().ConsumeGas(initialGas, …)`): without the
+	// reset, the 60th call of a block runs "out of gas" on the gas of the 59 before it.
+	c.Ctx = c.Ctx.WithGasMeter(sdk.NewInfiniteGasMeter())
 	r := xbEvmCall(c, c.Funded.Eth, to, data, &m)
 	w.env.Outcome("via-precompile." + what + "." + r.Class())
 	switch r.Class() {
